@@ -27,7 +27,7 @@ def run(ctx):
             ctx.obligation("translator:c20-extract", True)
             ctx.write_generated("C20", gen)
     built = ctx.lake_build(["ThriftVerif.Props.C20"], "lake-build:Props.C20")
-    drv = ctx.lake_build(["tvdriver"], "lake-build:tvdriver")
+    drv = ctx.lake_build(["tv_c20"], "lake-build:tv_c20")
     if built:
         ctx.audit("C20", THEOREMS)
         if ctx.tier == "thorough":
@@ -43,7 +43,7 @@ def run(ctx):
         for f in (st.get("oracle_failures") or []):
             ctx.add_violation(f["key"], f["what"], f["input"], f["expected"], f["observed"])
         if drv:
-            model = ctx.run_model("c20", os.path.join(ctx.work, "ops.txt"))
+            model = ctx.run_model("tv_c20", os.path.join(ctx.work, "ops.txt"))
             mism = ctx.diff_lines("c20", os.path.join(ctx.work, "ops.txt"), os.path.join(ctx.work, "impl.txt"), model)
     return ctx.finish(rule="option lists: exhaustive singles/pairs over the regenerated table plus seeded random lists (len<=12) with "
                            "prefixes/extensions of names and malformed spellings; every case is non-trivial; distinct by sha256 of the VL line")
